@@ -33,8 +33,9 @@ REPO = os.environ.get("VERIF_REPO", "/repo").rstrip("/") or "/repo"
 BUILD = os.path.join(VERIF, "build")
 ALT = None if REPO == "/repo" else "alt-" + hashlib.sha1(REPO.encode()).hexdigest()[:8]
 CARGO_TARGET = os.path.join(BUILD, "cargo") if ALT is None else os.path.join(BUILD, ALT, "cargo")
-REPLAYS = os.path.join(VERIF, "replays")
-EVIDENCE = os.path.join(VERIF, "evidence")
+# evidence and replays of runs against a scratch repository never overwrite the real ones
+REPLAYS = os.path.join(VERIF, "replays") if ALT is None else os.path.join(BUILD, ALT, "replays")
+EVIDENCE = os.path.join(VERIF, "evidence") if ALT is None else os.path.join(BUILD, ALT, "evidence")
 JOBS = 16
 
 ENV = dict(os.environ)
@@ -301,6 +302,44 @@ def audit_theorems(group, module, theorems, timeout=600):
                 axs.append(mm.group(1))
         res[t] = axs
     return res, out
+
+
+def qargs_for(group):
+    """-Q arguments (absolute paths) of a group and of every group it depends on."""
+    seen, stack, qargs = set(), [group], []
+    while stack:
+        g = stack.pop()
+        if g in seen:
+            continue
+        seen.add(g)
+        stack.extend(coq_deps(g))
+    for g in sorted(seen):
+        for line in open(os.path.join(coq_dir(g), "_CoqProject")):
+            m = re.match(r"\s*-Q\s+(\S+)\s+(\S+)", line)
+            if m:
+                p = os.path.normpath(os.path.join(coq_dir(g), m.group(1)))
+                qa = "-Q %s %s" % (p, m.group(2))
+                if qa not in qargs:
+                    qargs.append(qa)
+    return qargs
+
+
+def coqchk(group, module, timeout=3000):
+    """Re-check the compiled property module (and everything it depends on) with the
+    independent checker; returns dict(ok, axioms, tail)."""
+    rc, out = sh("coqchk -o -silent %s %s" % (" ".join(qargs_for(group)), module), cwd=coq_dir(group), timeout=timeout)
+    axioms = []
+    m = re.search(r"\* Axioms:(.*?)\n\s*\n\* Constants/Inductives relying on type-in-type:(.*?)\n\s*\n\* Constants/Inductives relying on unsafe \(co\)fixpoints:(.*?)\n\s*\n\* Inductives whose positivity is assumed:(.*?)\n", out + "\n\n", re.S)
+    ok = rc == 0 and m is not None
+    unsafe = []
+    if m:
+        ax = m.group(1).strip()
+        if ax != "<none>":
+            axioms = [a.strip() for a in ax.splitlines() if a.strip()]
+        for k in (2, 3, 4):
+            if m.group(k).strip() != "<none>":
+                unsafe.append(m.group(k).strip())
+    return dict(ok=ok and not unsafe, axioms=axioms, unsafe=unsafe, tail=out[-1500:])
 
 
 def axiom_ok(name):
